@@ -230,6 +230,56 @@ func (d *Decls) Raw(cmd string) {
 
 func (d *Decls) Text() string { return strings.Join(d.order, "\n") + "\n" }
 
+// TextFor returns the declarations needed by the given assertions: every
+// declaration and axiom, but of the defined functions (define-fun,
+// define-fun-rec) only those that the assertions, the axioms or a kept
+// definition mention.  A definition with a quantifier in its body acts on the
+// solver like an axiom even when nothing uses it (an unused "exists"
+// definition took one query from 0.1 s to a time-out).
+func (d *Decls) TextFor(uses string) string {
+	d.mu.Lock()
+	defer d.mu.Unlock()
+	keep := make([]bool, len(d.order))
+	var ref strings.Builder
+	ref.WriteString(uses)
+	defName := func(l string) string {
+		for _, kw := range []string{"(define-fun-rec ", "(define-fun "} {
+			if strings.HasPrefix(l, kw) {
+				rest := l[len(kw):]
+				if i := strings.IndexByte(rest, ' '); i > 0 {
+					return rest[:i]
+				}
+			}
+		}
+		return ""
+	}
+	for i, l := range d.order {
+		if defName(l) == "" {
+			keep[i] = true
+			ref.WriteString(l)
+			ref.WriteByte('\n')
+		}
+	}
+	text := ref.String()
+	for i := len(d.order) - 1; i >= 0; i-- {
+		if keep[i] {
+			continue
+		}
+		if n := defName(d.order[i]); strings.Contains(text, n+" ") || strings.Contains(text, n+")") {
+			keep[i] = true
+			text += d.order[i] + "\n"
+		}
+	}
+	var b strings.Builder
+	for i, l := range d.order {
+		if keep[i] {
+			b.WriteString(l)
+			b.WriteByte('\n')
+		}
+	}
+	return b.String()
+}
+
 func sanitize(s string) string {
 	var b strings.Builder
 	for _, c := range s {
